@@ -63,7 +63,7 @@ fn throwable(rng: &mut Rng) -> TThrowable {
 fn frame(rng: &mut Rng) -> TFrame {
     // a frame's class precedes the parenthesised file: parentheses cannot be part of it
     let class = class(rng).replace(['(', ')'], "_");
-    TFrame { class, method: method(rng), file: Some(file(rng)), line: line(rng) }
+    TFrame { class, method: method(rng), file: Some(file(rng)), line: line(rng), params: None }
 }
 fn trace(rng: &mut Rng, depth: usize, top: bool) -> TTrace {
     let nf = match rng.below(4) {
